@@ -129,7 +129,7 @@ Definition witness_T : tableau := exec witness_ops (zero_state 3).
 
 Theorem determined_refuted :
   exists n T q, T = witness_T /\ n = 3%nat /\ first_p n q T = None
-                /\ determined_real n T q <> determined_spec n T q.
+                /\ rr (determined_real n T q) <> rr (determined_spec n T q).
 Proof.
   exists 3%nat, witness_T, 2%nat. repeat split; try reflexivity. vm_compute. discriminate.
 Qed.
@@ -138,9 +138,10 @@ Qed.
 Definition witness_sops : list sop :=
   [S2 (of_mat2 M_CNOT) m_CNOT 0 1; S1 (of_mat1 M_H) m_H 0; S2 (of_mat2 M_CNOT) m_CNOT 1 2; S2 (of_mat2 M_CNOT) m_CNOT 0 1].
 Example witness_state_has_qubit2_zero :
-  stabilises_b 3 (zeros 3, unit_vec 3 2, determined_spec 3 witness_T 2) (run_spec witness_sops psi0) = true
-  /\ stabilises_b 3 (zeros 3, unit_vec 3 2, determined_real 3 witness_T 2) (run_spec witness_sops psi0) = false.
-Proof. split; vm_compute; reflexivity. Qed.
+  stabilises_b 3 (determined_spec 3 witness_T 2) (run_spec witness_sops psi0) = true
+  /\ determined_spec 3 witness_T 2 = (zeros 3, unit_vec 3 2, false)
+  /\ stabilises_b 3 (zeros 3, unit_vec 3 2, rr (determined_real 3 witness_T 2)) (run_spec witness_sops psi0) = false.
+Proof. split; [|split]; vm_compute; reflexivity. Qed.
 
 (* ---- products of stabilising rows stabilise (one rowsum step), hence the scratch row of the
    reference procedure stabilises the state whenever every step multiplies commuting rows *)
